@@ -13,6 +13,12 @@ def HRange.Narrow (r : HRange) : Prop := r.single = false → r.width ≤ 14 ∧
 
 instance (r : HRange) : Decidable r.Narrow := by unfold HRange.Narrow; exact inferInstance
 
+/-- `hostlist_next` prints the record's numbers in full: the repaired variant, or narrow numbers -/
+def HRange.PrintsFull (cfg : Cfg) (r : HRange) : Prop := cfg.fixIterSuffix = true ∨ r.Narrow
+
+instance (cfg : Cfg) (r : HRange) : Decidable (r.PrintsFull cfg) := by
+  unfold HRange.PrintsFull; exact inferInstance
+
 /-- what is left to enumerate from position (range i, k names of it already given) -/
 def remaining (L : List HRange) (i k : Nat) : List Str :=
   (match L[i]? with | some r => r.hosts.drop k | none => []) ++ (L.drop (i + 1)).flatMap HRange.hosts
@@ -53,8 +59,9 @@ theorem HRange.Good.span {r : HRange} (h : r.Good) : subU64 r.hi r.lo + 1 = r.ho
     simp
 
 /-- the k-th name of a good, narrow record as `hostlist_next` prints it -/
-theorem HRange.nextName {r : HRange} (hg : r.Good) (hn : r.Narrow) {k : Nat} (hk : k < r.hosts.length) :
-    r.pre ++ (if r.single then [] else iterSuffix (fmtPad r.width (addU64 r.lo k))) = r.hosts[k] := by
+theorem HRange.nextName {cfg : Cfg} {r : HRange} (hg : r.Good) (hn : r.PrintsFull cfg) {k : Nat}
+    (hk : k < r.hosts.length) :
+    r.pre ++ (if r.single then [] else iterSuffix cfg (fmtPad r.width (addU64 r.lo k))) = r.hosts[k] := by
   have hu : ULONG_MAX + 1 = U64 := by decide
   have hl := hg.hosts_length
   cases hs : r.single with
@@ -65,7 +72,6 @@ theorem HRange.nextName {r : HRange} (hg : r.Good) (hn : r.Narrow) {k : Nat} (hk
     simp [h1]
   | false =>
     obtain ⟨h1, h2⟩ := hg.2 hs
-    obtain ⟨n1, n2⟩ := hn hs
     rw [hs] at hl
     simp only [Bool.false_eq_true, ↓reduceIte] at hl
     have hh : r.hosts = (List.range' r.lo (r.hi + 1 - r.lo)).map fun k => r.pre ++ fmtPad r.width k := by
@@ -75,10 +81,15 @@ theorem HRange.nextName {r : HRange} (hg : r.Good) (hn : r.Narrow) {k : Nat} (hk
     simp only [Bool.false_eq_true, ↓reduceIte, hh, List.getElem_map, List.getElem_range', Nat.one_mul, ha]
     congr 1
     unfold iterSuffix
-    apply List.take_of_length_le
-    rw [fmtPad_length]
-    have := ndig_mono (show r.lo + k ≤ r.hi by omega)
-    omega
+    rcases hn with hfix | hn
+    · simp [hfix]
+    · obtain ⟨n1, n2⟩ := hn hs
+      split
+      · rfl
+      · apply List.take_of_length_le
+        rw [fmtPad_length]
+        have := ndig_mono (show r.lo + k ≤ r.hi by omega)
+        omega
 
 theorem remaining_cons {L : List HRange} {i k : Nat} {r : HRange} (hr : L[i]? = some r)
     (hk : k < r.hosts.length) : remaining L i k = r.hosts[k] :: remaining L i (k + 1) := by
@@ -107,9 +118,9 @@ theorem remaining_next {L : List HRange} {i k : Nat} {r : HRange} (hr : L[i]? = 
     simp
 
 /-- `hostlist_next` inside a range: k names of range i given, k < its size -/
-theorem iterNext_inside (h : HL) {i k : Nat} {r : HRange} (hr : h.ranges[i]? = some r)
-    (hg : r.Good) (hn : r.Narrow) (hk : k < r.hosts.length) :
-    iterNext h ⟨i, (k : Int) - 1⟩ = (some r.hosts[k], ⟨i, ((k + 1 : Nat) : Int) - 1⟩) := by
+theorem iterNext_inside (cfg : Cfg) (h : HL) {i k : Nat} {r : HRange} (hr : h.ranges[i]? = some r)
+    (hg : r.Good) (hn : r.PrintsFull cfg) (hk : k < r.hosts.length) :
+    iterNext cfg h ⟨i, (k : Int) - 1⟩ = (some r.hosts[k], ⟨i, ((k + 1 : Nat) : Int) - 1⟩) := by
   have hspan := hg.span
   have hd : ((k : Int) - 1 + 1) = (k : Int) := by omega
   have hcond : ¬ ((k : Int)).toNat > subU64 r.hi r.lo := by
@@ -134,12 +145,12 @@ theorem iterAdvance_end (h : HL) {i k : Nat} {r : HRange} (hr : h.ranges[i]? = s
 
 /-- one `hostlist_next` from position (i, k names given): it returns the head of `remaining`
     and moves to the matching position -/
-theorem iterNext_spec (h : HL) (hg : ∀ r ∈ h.ranges.toList, r.Good)
-    (hn : ∀ r ∈ h.ranges.toList, r.Narrow) (i k : Nat)
+theorem iterNext_spec (cfg : Cfg) (h : HL) (hg : ∀ r ∈ h.ranges.toList, r.Good)
+    (hn : ∀ r ∈ h.ranges.toList, r.PrintsFull cfg) (i k : Nat)
     (hk : ∀ r, h.ranges.toList[i]? = some r → k ≤ r.hosts.length) :
-    (remaining h.ranges.toList i k = [] ∧ (iterNext h ⟨i, (k : Int) - 1⟩).1 = none) ∨
+    (remaining h.ranges.toList i k = [] ∧ (iterNext cfg h ⟨i, (k : Int) - 1⟩).1 = none) ∨
     (∃ x xs i' k', remaining h.ranges.toList i k = x :: xs ∧
-        iterNext h ⟨i, (k : Int) - 1⟩ = (some x, ⟨i', ((k' : Nat) : Int) - 1⟩) ∧
+        iterNext cfg h ⟨i, (k : Int) - 1⟩ = (some x, ⟨i', ((k' : Nat) : Int) - 1⟩) ∧
         remaining h.ranges.toList i' k' = xs ∧
         (∀ r, h.ranges.toList[i']? = some r → k' ≤ r.hosts.length)) := by
   cases hr : h.ranges.toList[i]? with
@@ -154,7 +165,7 @@ theorem iterNext_spec (h : HL) (hg : ∀ r ∈ h.ranges.toList, r.Good)
     have hkr := hk r hr
     by_cases hlt : k < r.hosts.length
     · right
-      refine ⟨r.hosts[k], _, i, k + 1, remaining_cons hr hlt, iterNext_inside h hr' hgr (hn r hmem) hlt,
+      refine ⟨r.hosts[k], _, i, k + 1, remaining_cons hr hlt, iterNext_inside cfg h hr' hgr (hn r hmem) hlt,
         rfl, fun r' hr'' => ?_⟩
       rw [hr] at hr''; cases hr''; omega
     · have hke : k = r.hosts.length := by omega
@@ -183,18 +194,18 @@ theorem iterNext_spec (h : HL) (hg : ∀ r ∈ h.ranges.toList, r.Good)
 
 /-- the loop `while ((host = hostlist_next(i)))` from a position yields `remaining`, cut at the
     number of rounds -/
-theorem iterLoop_spec (h : HL) (hg : ∀ r ∈ h.ranges.toList, r.Good)
-    (hn : ∀ r ∈ h.ranges.toList, r.Narrow) (n : Nat) : ∀ (i k : Nat),
+theorem iterLoop_spec (cfg : Cfg) (h : HL) (hg : ∀ r ∈ h.ranges.toList, r.Good)
+    (hn : ∀ r ∈ h.ranges.toList, r.PrintsFull cfg) (n : Nat) : ∀ (i k : Nat),
     (∀ r, h.ranges.toList[i]? = some r → k ≤ r.hosts.length) →
-    iterLoop h n ⟨i, (k : Int) - 1⟩ = (remaining h.ranges.toList i k).take n := by
+    iterLoop cfg h n ⟨i, (k : Int) - 1⟩ = (remaining h.ranges.toList i k).take n := by
   induction n with
   | zero => intros; simp [iterLoop]
   | succ n ih =>
     intro i k hk
-    rcases iterNext_spec h hg hn i k hk with ⟨hrem, hnone⟩ | ⟨x, xs, i', k', hrem, hnx, hrem', hk'⟩
+    rcases iterNext_spec cfg h hg hn i k hk with ⟨hrem, hnone⟩ | ⟨x, xs, i', k', hrem, hnx, hrem', hk'⟩
     · rw [hrem]
       unfold iterLoop
-      generalize iterNext h ⟨i, (k : Int) - 1⟩ = nx at hnone
+      generalize iterNext cfg h ⟨i, (k : Int) - 1⟩ = nx at hnone
       obtain ⟨a, b⟩ := nx
       simp only at hnone
       subst hnone
@@ -212,10 +223,10 @@ theorem remaining_zero (L : List HRange) : remaining L 0 0 = L.flatMap HRange.ho
   | cons r rs => simp
 
 /-- a fresh iterator over a good, narrow list yields exactly the denoted hosts -/
-theorem iterAll_eq (h : HL) (hg : ∀ r ∈ h.ranges.toList, r.Good)
-    (hn : ∀ r ∈ h.ranges.toList, r.Narrow) (n : Nat) : iterAll h n = h.hosts.take n := by
+theorem iterAll_eq (cfg : Cfg) (h : HL) (hg : ∀ r ∈ h.ranges.toList, r.Good)
+    (hn : ∀ r ∈ h.ranges.toList, r.PrintsFull cfg) (n : Nat) : iterAll cfg h n = h.hosts.take n := by
   unfold iterAll Iter.new
-  have := iterLoop_spec h hg hn n 0 0 (fun _ _ => Nat.zero_le _)
+  have := iterLoop_spec cfg h hg hn n 0 0 (fun _ _ => Nat.zero_le _)
   have e : ((0 : Nat) : Int) - 1 = -1 := by omega
   rw [e] at this
   rw [this, remaining_zero]
